@@ -24,6 +24,9 @@ type RunOpt struct {
 	CacheOff bool
 	MaxDepth int
 	Timeout  time.Duration
+	// inputs containing ShortFor run under the (shorter) deadline Short instead of Timeout
+	ShortFor string
+	Short    time.Duration
 }
 
 type Obs struct {
@@ -142,6 +145,9 @@ func replOne(s *eval.State, buf *bytes.Buffer, src string, opt RunOpt, lineMode 
 	to := opt.Timeout
 	if to == 0 {
 		to = 5 * time.Second
+	}
+	if opt.ShortFor != "" && strings.Contains(src, opt.ShortFor) {
+		to = opt.Short
 	}
 	o := repl.Options{All: !lineMode, ShowEval: true, NoColor: true, MaxDuration: to}
 	cont, panicked, errs, _ := repl.EvalOne(context.Background(), s, src, buf, o)
